@@ -20,7 +20,7 @@ TRUSTED = [
     "modelled, not verified: CPython slice.indices/sorted/sum/itertools, Fraction arithmetic",
 ]
 ASSUMPTIONS = ["outcomes are exact rationals or integral floats (no float rounding in sums)", "memo cleared before each op (C13 covers history)"]
-EXPLANATION = "theorems C03_noargs / C03_selection (poolH = brute-force count of the selected sum, short-circuits included)"
+EXPLANATION = "theorems C03_noargs / C03_selection (poolH = brute-force count of the selected sum, short-circuits included); C03_permuted_selections, C03_affine_increasing / C03_affine_decreasing (metamorphic clauses, also run against /repo on pools of <= 6 dice)"
 ORACLE_EVERY = 1
 CASE_TIMEOUT = {"quick": 30, "thorough": 300}  # 12d20 keep-6 legitimately takes ~20 s in the implementation
 
@@ -59,7 +59,32 @@ def impl(case):
             return "bad-count"
     if h.total != sum(h.counts()):
         return "bad-total"
-    return _fmt((int(Fraction(o) * den), c) for o, c in h.items())
+    out = _fmt((int(Fraction(o) * den), c) for o, c in h.items())
+    flag = _affine_flag(case, p, h)
+    return out + (" FLAG:" + flag if flag else "")
+
+
+def _affine_flag(case, p, h):
+    """metamorphic clause (theorems C03_affine_increasing / C03_affine_decreasing): relabelling every face
+    x -> a*x + b relabels the selected sum s -> a*s + b*m; a < 0 mirrors the selected positions"""
+    from dyce import H, P
+
+    n = len(p)
+    if n == 0 or n > 6 or not case["which"]:
+        return None
+    try:
+        idxs = gen.resolve_which(n, case["which"])
+    except IndexError:
+        return None
+    if not idxs:
+        return None
+    for a, b in ((-1 - n % 2, len(idxs) % 3), (2 + n % 2, -1)):
+        p2 = P(*[H({a * o + b: c for o, c in hh.items()}) for hh in p])
+        h2 = p2.h(*([n - 1 - j for j in idxs] if a < 0 else idxs))
+        exp = {a * o + b * len(idxs): c for o, c in h.items() if c}
+        if {o: c for o, c in h2.items() if c} != exp:
+            return "affine-relabel(a=%d,b=%d)-differs" % (a, b)
+    return None
 
 
 def model(case):
